@@ -465,7 +465,7 @@ def jobs(tier):
         for nst in (1, 2) if q else (1, 2, 4):
             for wst in (0, 2):
                 out.append(Job(f"adwin-hist-mb{mb}-nst{nst}-wst{wst}", "checks.c01:body_history",
-                               {"det": "ADWIN", "N": 9 if q else 10,
+                               {"det": "ADWIN", "N": 9 if q else (13 if nst == 4 else 8 if (mb == 3 and nst == 1) else 10),
                                 "cfg": {"max_buckets": mb, "new_sample_thresh": nst, "window_size_thresh": wst,
                                         "subwindow_size_thresh": 1}},
                                expect=("after-drift", "state-drift")))
